@@ -91,7 +91,13 @@ def run(pid: str, tier: str) -> dict:
                 viol.append({"signature": f"{pid}|session|function does not reflect the present network|{json.dumps(t['h'][-2:])}",
                              "summary": f"the function compiled at the end of session {json.dumps(t['h'])} differs from the specification's step of the network built: {json.dumps(bad[:3])}",
                              "payload": {"kind": "session", "transition": t, "finding": bad[:10]}})
-    cov = {"states": max(1, states), "transitions": max(1, ntrans), "traces_validated_against_impl": len(trans) + nval,
+    import sesstrace
+    b = sesstrace.run(pid, tier)
+    viol += b["violations"]
+    states += b["states"]
+    cov = {"states": max(1, states), "transitions": max(1, ntrans), "traces_validated_against_impl": len(trans) + nval + b["traces"] + b["numeric"],
+           "recorded_sessions": b["traces"], "recorded_session_calls": b["calls"], "recorded_session_calls_judged": b["judged"],
+           "recorded_session_functions_validated_numerically": b["numeric"],
            "samples": [{"session": t["h"], "expected_result": t["res"]} for t in (trans[:1] + trans[len(trans) // 2:len(trans) // 2 + 1] + trans[-1:])],
            "exhaustive": True, "session_depths": DEPTH[tier], "session_transitions_replayed": len(trans),
            "session_functions_validated_numerically": nval,
@@ -100,4 +106,5 @@ def run(pid: str, tier: str) -> dict:
                           "asserted on every transition; every transition ending in a lifecycle call replayed into the real library."}
     return {"violations": viol, "coverage": cov, "level": "model_checking", "drift": sorted(set(drift))[:10],
             "assumptions": ["TLC; the replay harness sessrun.py (outcome classes, presence of variables / next states)"],
-            "headline": f"{len(trans)} session transitions replayed, {nval} session functions validated numerically, {len(viol)} findings"}
+            "headline": f"{len(trans)} session transitions replayed, {nval} session functions validated numerically, "
+                        f"{b['traces']} recorded sessions ({b['judged']}/{b['calls']} calls judged, {b['numeric']} functions) validated, {len(viol)} findings"}
